@@ -101,8 +101,41 @@ func (e *Emitter) Script(o *Obligation) string {
 	sd := e.ss.Decls()
 	b.WriteString(e.ss.StrDecls())
 	b.WriteString(sd)
-	// spec functions actually referenced (defines may reference earlier ones); axioms are always emitted
-	for _, a := range append(append([]string{}, e.reg.axioms...), e.reg.lemmaAxioms...) {
+	// spec functions actually referenced (defines may reference earlier ones); axioms are always emitted;
+	// a lemma is emitted only when the VC mentions one of the spec functions the lemma is about
+	specNames := map[string]bool{}
+	for _, f := range e.reg.order {
+		specNames[f.SMT] = true
+	}
+	var lemmas []string
+	for changed := true; changed; {
+		changed = false
+		for _, a := range e.reg.lemmaAxioms {
+			already := false
+			for _, l := range lemmas {
+				if l == a {
+					already = true
+				}
+			}
+			if already {
+				continue
+			}
+			rel := false
+			for s := range symbolsOf(a) {
+				if specNames[s] && used[s] {
+					rel = true
+				}
+			}
+			if rel {
+				lemmas = append(lemmas, a)
+				for s := range symbolsOf(a) {
+					used[s] = true
+				}
+				changed = true
+			}
+		}
+	}
+	for _, a := range e.reg.axioms {
 		for s := range symbolsOf(a) {
 			used[s] = true
 		}
@@ -139,7 +172,11 @@ func (e *Emitter) Script(o *Obligation) string {
 		b.WriteString(a + "\n")
 	}
 	for _, a := range e.reg.lemmaAxioms {
-		b.WriteString(a + "\n")
+		for _, l := range lemmas {
+			if l == a {
+				b.WriteString(a + "\n")
+			}
+		}
 	}
 	for _, d := range keep {
 		b.WriteString(d + "\n")
